@@ -228,20 +228,26 @@ def main():
         if violations and not os.environ.get('VERIF_ALL_PARTS'):
             report['inconclusive_note'] = 'stopped after the first confirmed violation; parts not run: ' + (part.get('family') or 'mir')
             break
-        if part['engine'] == 'kani':
-            cands, incon = run_kani_part(pid, part, tier, seed, report)
-            report['inconclusive'] += incon
-            if cands:
-                v, k, inc = confirm(pid, cands, part, report)
+        try:
+            if part['engine'] == 'kani':
+                cands, incon = run_kani_part(pid, part, tier, seed, report)
+                report['inconclusive'] += incon
+                if cands:
+                    v, k, inc = confirm(pid, cands, part, report)
+                    violations += v
+                    known_hits += k
+                    report['inconclusive'] += inc
+            elif part['engine'] == 'mir':
+                from vlib import mirchecks
+                v, k, inc = mirchecks.run_part(pid, part, tier, report, load_known())
                 violations += v
                 known_hits += k
                 report['inconclusive'] += inc
-        elif part['engine'] == 'mir':
-            from vlib import mirchecks
-            v, k, inc = mirchecks.run_part(pid, part, tier, report, load_known())
-            violations += v
-            known_hits += k
-            report['inconclusive'] += inc
+        except Exception as e:
+            # an internal error of the machinery is never a verdict about the tree: undecided (exit 2), with the evidence written
+            import traceback
+            report['inconclusive'].append('internal error in part %s: %s: %s [%s]' % (part.get('family') or part['engine'], type(e).__name__, e,
+                                                                                   ' <- '.join(l.strip() for l in traceback.format_exc().strip().splitlines()[-6:-1:2])[:300]))
     for f, path in known_hits:
         print('KNOWN-FINDING: property=%s %s (key %s, replay %s)' % (pid, f['what'], f['key'], path))
         report['known'].append({'key': f['key'], 'what': f['what']})
